@@ -2,6 +2,8 @@
    Requests:  calls <ast>  -> per code body of compile_toplevel, in code order: ((t n) ..) with t = 1 for TAIL-CALL
               tail <ast>   -> tail_sites true of the annotated top-level form (the SPEC side of the top-level body)
               ensure <fixed 0|1> <top> <n> <len>  -> ENOUGH <len'> | OOS
+              deep <k> <top> <per> <n> <len>      -> deep_outcome: ENOUGH <final len> | OOS   (k pending calls)
+              grow <size> <min_size>              -> grow_stack (repaired): SOME <len> | NONE
    (original header of the C03 driver follows)
    Requests (one per line, ASTs are s-expressions in the format of harness/embed_c03.c with
    names replaced by numbers):
@@ -124,6 +126,13 @@ let handle = function
   | ["ensure"; fixed; top; n; len] ->
       (match ensure_stack (fixed = "1") (z_of_int (int_of_string top)) (z_of_int (int_of_string n)) (z_of_int (int_of_string len)) with
        | Enough l -> "ENOUGH " ^ sz l | OutOfStack -> "OOS")
+  | ["deep"; k; top; per; n; len] ->
+      let z x = z_of_int (int_of_string x) in
+      (match deep_outcome (z k) (z top) (z per) (z n) (z len) with
+       | Enough l -> "ENOUGH " ^ sz l | OutOfStack -> "OOS")
+  | ["grow"; size; min_size] ->
+      (match grow_stack true (z_of_int (int_of_string size)) (z_of_int (int_of_string min_size)) with
+       | Some l -> "SOME " ^ sz l | None -> "NONE")
   | f -> "ERR unknown request " ^ String.concat " " f
 
 let () = serve handle
